@@ -1,5 +1,5 @@
 CONSTANTS K = 5
-  Families = {"r1"}
+  Families = {"nest", "r1"}
   Emit = TRUE
 INIT Init
 NEXT Next
